@@ -130,6 +130,18 @@ func runCheck(id, tier, repo, dump, only string, list bool) int {
 					}
 				}
 			}
+			// "-- only-for-claims C13 C14": an interface-level model used by these claims only (the package it describes
+			// has verified contracts of its own, which apply in every other claim)
+			for _, l := range strings.Split(string(b), "\n") {
+				if strings.HasPrefix(l, "-- only-for-claims ") {
+					skip = true
+					for _, c := range strings.Fields(strings.TrimPrefix(l, "-- only-for-claims ")) {
+						if c == claim.ID {
+							skip = false
+						}
+					}
+				}
+			}
 			if skip {
 				continue
 			}
